@@ -16,10 +16,14 @@ CONFIG = {
         "V.C06.undeterminable_rejects", "V.C06.others_irrelevant", "V.C06.one_bad_fails", "V.C06.bad_sender_rejects",
         "V.C06.no_panic", "V.C06.pseudo_sender_required", "V.C06.pseudo_mapping_signers_valid", "V.C06.pseudo_foreign_mapping_rejected",
         "V.C06.membership_eq_auth_reading", "V.C06.auth_authoriser_required", "V.C06.memberContent_eq_spec", "V.C06.memberContent_eq_auth",
+        "V.C06.verify_all_pointwise", "V.C06.verify_all_batch_irrelevant",
         "V.C06Ring.verify_with_keyring_sound", "V.C06Ring.verify_with_keyring_sound_validAt", "V.C06Ring.verify_with_keyring_one_bad",
         "V.C06Ring.verify_with_keyring_complete",
     ] + [t for t in _C12.CONFIG["theorems"] if not any(k in t for k in ("checkKeys", "checkVerifyKeys", "publicKey_", "mapServerKeys", "fetchKeysForServer", "fetchNotaryKeys", "perspective", "fetcher_accepts", "direct_accepts", "notaryValid", "past_valid_until"))],
-    "rule": "events of every membership (join/invite/leave/ban/knock/odd) and non-member types x all 16 room versions; senders, "
+    "rule": "signers.verify_all (round 3): VerifyAllEventSignatures on 2-7 events of one version with one verifier - events with several required "
+            "servers, the same event twice, two different events under one event ID (versions 1-2) - each asked server answering at random; one verdict per event, each "
+            "equal to that of VerifyEventSignatures on the event alone (verify_all_pointwise). server names with capitals (a name and its lower-case form are different "
+            "servers, answering opposite). events of every membership (join/invite/leave/ban/knock/odd) and non-member types x all 16 room versions; senders, "
             "state keys and join_authorised_via_users_server on several domains (ports, IP literals, punycode), malformed IDs "
             "(no sigil, no colon, empty server), non-string / null / case-variant members, v1/v2 event IDs naming other servers or "
             "malformed; pseudo-ID (msc4014) events really signed with generated ed25519 sender / invitee keys (absent, other key ID, "
